@@ -206,9 +206,11 @@ Definition exported_fn (q : string) : bool :=
                          && match String.index 0 "." q with None => true | Some _ => false end
   | String.EmptyString => false
   end.
-(* ... and the package's init functions: they run unlocked, and they are where the encoder
+(* ... and the package's init functions and the initialisers of package-level variables
+   (pseudo functions "var@name": closures such as sync.Pool.New live there): they run unlocked, and they are where the encoder
    routines, which are otherwise only called through function values, are mentioned *)
-Definition entry_points : list string := filter (fun q => exported_fn q || String.prefix "init@" q) all_fns.
+Definition entry_points : list string :=
+  filter (fun q => exported_fn q || String.prefix "init@" q || String.prefix "var@" q) all_fns.
 (* one edge of the syntactic call graph, cut at createStructDesc *)
 Definition edge (p q : string) : bool :=
   negb (String.eqb p "createStructDesc") && existsb (has_base q) (callees_of p calls).
